@@ -22,28 +22,40 @@ func (s *suite) spec() gen.FieldSpec {
 // drawU draws an input of the map: 0, +-1, the exceptional inputs computed by the reference (and
 // their neighbours), small integers, the field boundary lattice per coefficient, sparse extension
 // elements, uniform. The second result is the class; the third whether it is exceptional/boundary.
-func (s *suite) drawU(t *rapid.T, label string) (ref.V, string, bool) {
+func (s *suite) drawU(t *rapid.T, label string) (ref.V, []string, bool) {
+	u, c, b := s.drawU1(t, label)
+	return u, c, b
+}
+
+func (s *suite) drawU1(t *rapid.T, label string) (ref.V, []string, bool) {
 	F := s.F
 	sp := s.spec()
-	switch rapid.IntRange(0, 9).Draw(t, label+"Kind") {
+	switch rapid.IntRange(0, 12).Draw(t, label+"Kind") {
+	case 12:
+		return s.drawCoefSingleLimb(t, label)
+	case 10, 11:
+		if u, cls, ok := s.drawNearExceptional(t, label); ok {
+			return u, cls, true
+		}
+		return s.drawCoefSingleLimb(t, label)
 	case 0:
-		return F.Zero(), "u:0", true
+		return F.Zero(), []string{"u:0"}, true
 	case 1:
 		if rapid.Bool().Draw(t, label+"neg") {
-			return ref.Red(F, F.Neg(F.One())), "u:-1", true
+			return ref.Red(F, F.Neg(F.One())), []string{"u:-1"}, true
 		}
-		return F.One(), "u:1", true
+		return F.One(), []string{"u:1"}, true
 	case 2, 3:
 		// non-zero roots of the exceptional polynomial, when the field has any (0 has its own class)
 		ex := s.exceptional()
 		if len(ex) > 1 {
-			return ex[rapid.IntRange(1, len(ex)-1).Draw(t, label+"exc")], "u:exceptional_root", true
+			return ex[rapid.IntRange(1, len(ex)-1).Draw(t, label+"exc")], []string{"u:exceptional_root"}, true
 		}
 		u := make(ref.V, F.Deg())
 		for i := range u {
 			u[i], _ = sp.Elem(t, fmt.Sprintf("%sc%d", label, i))
 		}
-		return u, "u:lattice", sp.OnBoundary(u[0])
+		return u, []string{"u:lattice"}, sp.OnBoundary(u[0])
 	case 4:
 		// neighbours of the exceptional inputs (off by one in the first coefficient): not exceptional
 		ex := s.exceptional()
@@ -52,37 +64,37 @@ func (s *suite) drawU(t *rapid.T, label string) (ref.V, string, bool) {
 		if rapid.Bool().Draw(t, label+"neg") {
 			d = F.Neg(d)
 		}
-		return ref.Red(F, F.Add(e, d)), "u:exceptional_neighbour", true
+		return ref.Red(F, F.Add(e, d)), []string{"u:exceptional_neighbour"}, true
 	case 5:
 		k := int64(rapid.IntRange(-20, 20).Draw(t, label+"small"))
 		u := ref.Scalar(F, big.NewInt(k))
 		if F.Deg() > 1 && rapid.Bool().Draw(t, label+"gen") {
 			u = F.Add(u, ref.FieldGen(F))
 		}
-		return ref.Red(F, u), "u:small", k == 0
+		return ref.Red(F, u), []string{"u:small"}, k == 0
 	case 6:
 		// sparse extension element / boundary value in a single coefficient
 		u := F.Zero()
 		i := rapid.IntRange(0, F.Deg()-1).Draw(t, label+"pos")
 		v, _ := sp.Elem(t, label+"c")
 		u[i] = v
-		return u, "u:single_coefficient_lattice", true
+		return u, []string{"u:single_coefficient_lattice"}, true
 	case 7, 8:
 		u := make(ref.V, F.Deg())
 		for i := range u {
 			u[i], _ = sp.Elem(t, fmt.Sprintf("%sc%d", label, i))
 		}
-		return u, "u:lattice", sp.OnBoundary(u[0])
+		return u, []string{"u:lattice"}, sp.OnBoundary(u[0])
 	default:
 		u := make(ref.V, F.Deg())
 		for i := range u {
 			u[i] = sp.Uniform(t, fmt.Sprintf("%sc%d", label, i))
 		}
-		return u, "u:uniform", false
+		return u, []string{"u:uniform"}, false
 	}
 }
 
-func (s *suite) callMapToCurve(t *rapid.T, u ref.V) (p interface{}) {
+func (s *suite) callMapToCurve(t fataler, u ref.V) (p interface{}) {
 	defer func() {
 		if r := recover(); r != nil {
 			t.Fatalf("%s: MapToCurve%s(%s) panicked: %v", s.id, s.n, vstr(u), r)
@@ -91,7 +103,7 @@ func (s *suite) callMapToCurve(t *rapid.T, u ref.V) (p interface{}) {
 	return s.libMapToCurve(u)
 }
 
-func (s *suite) callMapToG(t *rapid.T, u ref.V) (p interface{}) {
+func (s *suite) callMapToG(t fataler, u ref.V) (p interface{}) {
 	defer func() {
 		if r := recover(); r != nil {
 			t.Fatalf("%s: MapToG%s(%s) panicked: %v", s.id, s.n, vstr(u), r)
@@ -116,11 +128,16 @@ func (s *suite) refClear(q ref.Pt) (ref.Pt, string) {
 
 // (3a) MapToCurve / MapToG on field elements
 func propMapToCurve(t *rapid.T, s *suite) {
-	T := "C13_MapToCurve/" + s.id
+	u, ucs, boundary := s.drawU(t, "u")
+	checkMap(t, s, "C13_MapToCurve/"+s.id, u, boundary, ucs...)
+}
+
+// checkMap is the oracle of MapToCurve / MapToG at one input u (shared by the rapid property and the
+// near-exceptional sweep).
+func checkMap(t fataler, s *suite, T string, u ref.V, boundary bool, ucs ...string) {
 	F, E := s.F, s.g.E
-	u, uc, boundary := s.drawU(t, "u")
 	key := fmt.Sprintf("%s u=%s", s.id, vstr(u))
-	cls := []string{uc, "kind:" + s.kind}
+	cls := append(append([]string{}, ucs...), "kind:"+s.kind)
 
 	w, br := s.refMapToCurve(u)
 	cls = append(cls, "branch:"+br)
